@@ -420,6 +420,9 @@ class Counter(LogicBlock):
             value: Value to add to the counter.
             kwargs: Additional arguments.
         """
+        if not self._state:
+            # control events are registered machine-wide: ignore them while our mode is not running
+            return
         evaluated_value = value.evaluate_or_none(kwargs)
         if evaluated_value is None:
             self.log.warning("Placeholder %s for counter add did not evaluate with args %s", value, kwargs)
@@ -439,6 +442,9 @@ class Counter(LogicBlock):
             value: Value to subtract from the counter.
             kwargs: Additional arguments.
         """
+        if not self._state:
+            # control events are registered machine-wide: ignore them while our mode is not running
+            return
         evaluated_value = value.evaluate_or_none(kwargs)
         if evaluated_value is None:
             self.log.warning("Placeholder %s for counter substract did not evaluate with args %s", value, kwargs)
@@ -458,6 +464,9 @@ class Counter(LogicBlock):
             value: Value to add to jump to.
             kwargs: Additional arguments.
         """
+        if not self._state:
+            # control events are registered machine-wide: ignore them while our mode is not running
+            return
         evaluated_value = value.evaluate_or_none(kwargs)
         if evaluated_value is None:
             self.log.warning("Placeholder %s for counter jump did not evaluate with args %s", value, kwargs)
